@@ -41,6 +41,26 @@ theorem no_oob_categorical_import (cats : List (Bytes × Int)) (hnd : (cats.map 
     categoricalImport cats chunks data ≠ .error (.oob site) :=
   ne_oob_of_ok (C06.categorical_import cats hnd chunks cellss h data) site
 
+/-- `categorical_transform` with fix NC06d (it also returns the first row without a matching key): same subscripts, same
+    bounds — whether or not every cell is a category -/
+theorem no_oob_categorical_transform_checked (cats : List (Bytes × Int)) (hnd : (cats.map (·.1)).Nodup) (c : Chunk)
+    (cells : List Bytes) (h : Spec.Transforms.Encodes c cells) (site : String) :
+    categoricalTransformChecked (getByteMap cats) c ≠ .error (.oob site) :=
+  ne_oob_of_ok (C06.categorical_transform_checked cats hnd c cells h).1 site
+
+/-- `CategoricalImporter` with fix NC06d over any cutting of the column into chunks: it ends with the column or with the
+    `ValueError` for a cell that is no category, never with an out-of-bounds access -/
+theorem no_oob_categorical_import_checked (cats : List (Bytes × Int)) (hnd : (cats.map (·.1)).Nodup) (chunks : List Chunk)
+    (cellss : List (List Bytes)) (h : Spec.Transforms.EncodesAll chunks cellss) (data : List Int) (site : String) :
+    categoricalImportChecked cats chunks data ≠ .error (.oob site) := by
+  rw [C06.categorical_import_checked cats hnd chunks cellss h data]
+  cases Spec.Transforms.catColumn cats cellss.flatten with
+  | none => intro hc; cases hc
+  | some codes => intro hc; cases hc
+
+example : categoricalImportChecked C06.demoCats [C06.demoChunk] [] ≠ .error (.oob "chunk[row_idx]") :=
+  no_oob_categorical_import_checked C06.demoCats (by decide) _ _ (.cons C06.demo_encodes .nil) [] _
+
 /-- `leaky_categorical_transform`: the free-text buffer (sized by the column's staging capacity) is never overrun,
     whatever the share of unmatched cells -/
 theorem no_oob_leaky_categorical_transform (cats : List (Bytes × Int)) (hnd : (cats.map (·.1)).Nodup) (c : Chunk)
